@@ -32,7 +32,7 @@ struct Transcript {
 };
 
 struct Plan {
-	scn::Config cfg; int nsess = 2, nthird = 1; std::vector<bool> v6, lazy; std::vector<A4> acts;
+	scn::Config cfg; int nsess = 2, nthird = 1; std::vector<bool> v6, lazy, raw; std::vector<A4> acts;
 };
 
 static Plan gen_plan(Tape &t)
@@ -56,7 +56,7 @@ static Plan gen_plan(Tape &t)
 	int nslots = (int)std::min<uint32_t>(16, size - 3);
 	P.nsess = std::max(1, std::min(nslots, 2 + (int)t.pick({4, 3, 2, 1, 1, 1, 1})));
 	P.nthird = 1 + (int)t.below(3);
-	for (int i = 0; i < P.nsess + P.nthird; i++) { P.v6.push_back(t.chance(1, 2)); P.lazy.push_back(t.chance(1, 2)); }
+	for (int i = 0; i < P.nsess + P.nthird; i++) { P.v6.push_back(t.chance(1, 2)); P.lazy.push_back(t.chance(1, 2)); P.raw.push_back(t.chance(1, 4)); }
 	int nact = t.range(8, 90);
 	for (int k = 0; k < nact && !t.exhausted(); k++) {
 		A4 a;
@@ -90,7 +90,7 @@ static Plan gen_plan(Tape &t)
 	return P;
 }
 
-struct Sess { int src; bool up = false; int user = -1; size_t absorbed = 0; uint64_t t_last = 0; int state = 1; /* 1 live, 0 expired, -1 unknown */ Bytes tun_ip; size_t seen = 0; };
+struct Sess { int src; bool up = false; bool raw = false; uint64_t t_maybe = 0; /* a raw data frame sent when the harness could not tell whether the session was still accepted */ int user = -1; size_t absorbed = 0; uint64_t t_last = 0; int state = 1; /* 1 live, 0 expired, -1 unknown */ Bytes tun_ip; size_t seen = 0; };
 
 struct Exec {
 	Env E;
@@ -104,7 +104,7 @@ struct Exec {
 	struct Third { int src; Bytes ip; int user; uint64_t t_last; };
 	std::vector<Third> third;                      // third parties currently logged in (latest login per source)
 	std::map<size_t, size_t> maxf; std::map<size_t, std::set<char>> enc;
-	int n_spoof = 0, n_spoof_badip = 0, n_tun_live = 0, n_tun_dead = 0, n_expiry = 0, n_takeover_checks = 0, n_c2c = 0, n_newlogin = 0;
+	int n_spoof = 0, n_spoof_badip = 0, n_tun_live = 0, n_tun_dead = 0, n_expiry = 0, n_takeover_checks = 0, n_c2c = 0, n_newlogin = 0, n_raw_sessions = 0;
 	std::string sig, why;
 	void fail(const std::string &s, const std::string &w) { if (sig.empty()) { sig = s; why = w; } }
 };
@@ -131,7 +131,10 @@ static void pump(Exec &X)
 		for (; s.seen < sc.inbox.size(); s.seen++) {
 			const scn::Rx &rx = sc.inbox[s.seen];
 			if (!rx.is_raw && rx.ans.id >= 60000) continue;   // the answer to a spoof sent from this session's address against somebody else
-			if (rx.is_raw) { X.T.rx[i].push_back("raw:" + hexs(rx.dg.data, 4096)); sc.absorb(rx); continue; }
+			if (rx.is_raw) {
+				// raw ping replies are not part of the transcript: how many keep-alive pings the drain phase sends depends on wake-up timing
+				if (!(rx.dg.data.size() >= 4 && (rx.dg.data[3] >> 4) == 3)) X.T.rx[i].push_back("raw:" + hexs(rx.dg.data, 4096));
+				sc.absorb(rx); continue; }
 			char k = rx.ans.qname.empty() ? 0 : (char)tolower((unsigned char)rx.ans.qname[0]);
 			bool pingdata = k && strchr("p0123456789abcdef", k);
 			if (!rx.ans.ok) X.T.rx[i].push_back(fmt("id%u:undecodable(%s)", rx.ans.id, rx.ans.err.c_str()));
@@ -225,6 +228,13 @@ static void execute(const Plan &P, bool with_spoofs, Exec &X, Tape &t)
 		s.up = sc.handshake(P.lazy[i], 0, 0, 0);
 		s.user = sc.userid; s.t_last = sim::W.now;
 		if (s.up) { unsigned a = 0, b = 0, c = 0, d = 0; sscanf(sc.tun_ip_text.c_str(), "%u.%u.%u.%u", &a, &b, &c, &d); s.tun_ip = Bytes{(uint8_t)a, (uint8_t)b, (uint8_t)c, (uint8_t)d}; E.slot[s.user & 31].tun_ip = s.tun_ip; }
+		if (s.up && P.raw[i]) {   // the session switches to raw UDP mode (response to challenge+1); from then on it pings and sends data in raw frames
+			uint8_t hh[16]; ref::login_hash(sc.password, sc.challenge + 1, hh);
+			size_t b0 = sc.inbox.size();
+			sc.send_raw(refproto::raw_frame(1, sc.userid, Bytes(hh, hh + 16))); sim::W.run_for(3000);
+			for (size_t q = b0; q < sc.inbox.size(); q++) if (sc.inbox[q].is_raw && sc.inbox[q].dg.data.size() >= 4 && (sc.inbox[q].dg.data[3] >> 4) == 1) s.raw = true;
+			if (s.raw) X.n_raw_sessions++;
+		}
 		s.seen = sc.inbox.size();
 		X.ss.push_back(s);
 		if (!s.up) X.T.notes.push_back(fmt("session %d: handshake refused", i));
@@ -244,6 +254,29 @@ static void execute(const Plan &P, bool with_spoofs, Exec &X, Tape &t)
 		if (badip) s.state = 0;
 		else if (s.up && s.state != 0) { s.t_last = sim::W.now - 3000; if (s.user >= 0 && s.user < 32) E.slot[s.user].t_active = s.t_last; }
 	};
+	// raw-mode session: a raw ping is answered with a raw ping when the session is accepted, not at all otherwise
+	auto touch_raw = [&](Sess &s, bool expect_reply) {
+		scn::ScriptClient &sc = E.S(s.src).sc;
+		uint64_t silent = sim::W.now - s.t_last;
+		size_t b0 = sc.inbox.size();
+		sim::W.run_for(3000);
+		bool replied = false;
+		for (size_t q = b0; q < sc.inbox.size(); q++) if (sc.inbox[q].is_raw && sc.inbox[q].dg.data.size() >= 4 && (sc.inbox[q].dg.data[3] >> 4) == 3) replied = true;
+		if (silent >= 62000000ull + 3000 && s.state != 0) X.n_expiry++;
+		bool still_mine = s.user >= 0 && s.user < 32 && E.slot[s.user].vack_to.same_ip(sc.addr);
+		if (!expect_reply) {   // a raw data frame is never answered: accepted for sure only while the session is well within its 60 s
+			if (s.state == 1 && silent <= 58000000ull) { s.t_last = sim::W.now - 3000; if (s.user >= 0 && s.user < 32) E.slot[s.user].t_active = s.t_last; }
+			else s.t_maybe = sim::W.now;
+			if (s.user >= 0 && s.user < 32) X.maybe_active[s.user] = sim::W.now;
+			return;
+		}
+		silent = sim::W.now - 3000 - std::max(s.t_last, s.t_maybe);
+		if (expect_reply && silent >= 62000000ull + 3000 && replied && s.up && still_mine)
+			X.fail("C04:expired-session-accepted", fmt("raw-mode session %d (user %d) was silent for %.1f s and its raw ping was still answered", (int)(&s - &X.ss[0]), s.user, silent / 1e6));
+		if (s.user >= 0 && s.user < 32 && (replied || !expect_reply)) X.maybe_active[s.user] = sim::W.now;
+		if (expect_reply && !replied && silent >= 62000000ull) s.state = 0;
+		else if (replied && s.up && s.state != 0) { s.t_last = sim::W.now - 3000; if (s.user >= 0 && s.user < 32) E.slot[s.user].t_active = s.t_last; }
+	};
 	// pings of a logged-in third party: each refreshes its slot (upper bound always, lower bound when an answer other than BADIP was seen)
 	auto third_pings = [&](scn::ScriptClient &sc, int user, int n) {
 		for (int i = 0; i < n; i++) {
@@ -260,7 +293,9 @@ static void execute(const Plan &P, bool with_spoofs, Exec &X, Tape &t)
 	for (const A4 &a : P.acts) {
 		if (sim::W.livelock || !X.sig.empty()) break;
 		switch (a.kind) {
-		case A_PING: { Sess &s = X.ss[a.who]; if (!s.up) break; uint16_t id = E.S(s.src).sc.send_ping(); touch(s, id); E.note(fmt("session %d ping", a.who)); break; }
+		case A_PING: { Sess &s = X.ss[a.who]; if (!s.up) break;
+			if (s.raw) { scn::ScriptClient &sc = E.S(s.src).sc; sc.send_raw(refproto::raw_frame(3, sc.userid, Bytes())); touch_raw(s, true); E.note(fmt("session %d raw ping", a.who)); break; }
+			uint16_t id = E.S(s.src).sc.send_ping(); touch(s, id); E.note(fmt("session %d ping", a.who)); break; }
 		case A_DATA: {
 			Sess &s = X.ss[a.who]; if (!s.up) break;
 			scn::ScriptClient &sc = E.S(s.src).sc;
@@ -269,6 +304,7 @@ static void execute(const Plan &P, bool with_spoofs, Exec &X, Tape &t)
 			Bytes body(12 + a.salt % 40); { uint32_t x = a.salt | 1; for (size_t i = 0; i < body.size(); i++) { x ^= x << 13; x ^= x >> 17; x ^= x << 5; body[i] = (uint8_t)(x >> 9); } }
 			Bytes pkt = scn::tun_packet(dst, s.tun_ip, body, (uint16_t)(a.salt >> 8));
 			Bytes z = refproto::zcompress(pkt);
+			if (s.raw) { sc.send_raw(refproto::raw_frame(2, sc.userid, z)); touch_raw(s, false); E.note(fmt("session %d sends a packet to %s in a raw frame", a.who, a.sel > 0 ? "another session" : "the server")); break; }
 			static const char cm[] = "abcdefghijklmnopqrstuvwxyz0123456789";
 			sc.up_seq = (sc.up_seq + 1) & 7;
 			std::string name = refproto::name_data(sc.userid, sc.up_seq, 0, sc.dn_seq, sc.dn_frag, 1, cm[sc.data_cmc], sc.up_codec, z, sc.domain);
@@ -278,7 +314,7 @@ static void execute(const Plan &P, bool with_spoofs, Exec &X, Tape &t)
 			E.note(fmt("session %d sends a packet to %s", a.who, a.sel > 0 ? "another session" : "the server"));
 			break;
 		}
-		case A_OPT: { Sess &s = X.ss[a.who]; if (!s.up) break; scn::ScriptClient &sc = E.S(s.src).sc; bool ok;
+		case A_OPT: { Sess &s = X.ss[a.who]; if (!s.up || s.raw) break; scn::ScriptClient &sc = E.S(s.src).sc; bool ok;
 			// a fragment size the session's record type can carry (a larger one cuts fragments off: the session's own misconfiguration)
 			int cap = (E.cfg.qtype == 6 || E.cfg.qtype == 7) ? 100 : ((E.cfg.qtype == 4 || E.cfg.qtype == 5) ? 900 : 1000);
 			int fsz = 20 + (int)(a.salt % (uint32_t)(cap - 19)); int sel = a.sel; if (sel == 2 && X.got_traffic[a.who]) sel = (int)(a.salt & 1);   /* a fragment size is only requested before any downstream traffic: changing it in the middle of a transfer makes the server re-send the current fragment with another length, and whether the session already holds the old one is a matter of timing (a real client sets the size once, in the handshake) */
@@ -320,7 +356,8 @@ static void execute(const Plan &P, bool with_spoofs, Exec &X, Tape &t)
 			int size_log2 = 32 - E.cfg.netmask; uint32_t mask = size_log2 >= 32 ? 0 : ~((size_log2 >= 31 ? 0x7fffffffu : (1u << size_log2)) - 1);
 			switch (a.sel) {
 			case 0: { Sess &v = X.ss[a.victim]; if (!v.up) break; if (v.user < 0 || v.user >= 32 || !E.slot[v.user].vack_to.same_ip(E.S(v.src).sc.addr)) break; dst = v.tun_ip; what = "a session"; uint64_t silent = sim::W.now - v.t_last;
-				owner = v.state == 0 ? -1 : (silent <= 58000000ull ? a.victim : (silent >= 62000000ull ? -1 : -3)); break; }
+				uint64_t silent_hi = sim::W.now - std::max(v.t_last, v.t_maybe);   // a raw data frame may have refreshed the session without the harness knowing
+				owner = (v.state == 0 && v.t_maybe <= v.t_last) ? -1 : (silent <= 58000000ull && v.state != 0 ? a.victim : (silent_hi >= 62000000ull ? -1 : -3)); break; }
 			case 1: { // slot that got a VACK but never logged in / unassigned slot address
 				Bytes ip = E.s->client_tun_ip((int)(a.salt % 16)); bool owned = false; for (auto &s : X.ss) if (s.up && s.tun_ip == ip) owned = true;
 				for (auto &tip : X.third_ips) if (tip == ip) owned = true;   // a third party logged in there: no claim
@@ -390,7 +427,7 @@ static void execute(const Plan &P, bool with_spoofs, Exec &X, Tape &t)
 		for (int k = 0; k < 150 && quiet < 4 && !sim::W.livelock; k++) {
 			size_t before = 0, after = 0;
 			for (auto &s : X.ss) before += E.S(s.src).sc.received.size() + E.S(s.src).sc.dn_buf.size();
-			for (auto &s : X.ss) if (s.up && s.state == 1 && sim::W.now - s.t_last < 50000000ull) E.S(s.src).sc.send_ping();
+			for (auto &s : X.ss) if (s.up && s.state == 1 && sim::W.now - s.t_last < 50000000ull) { if (s.raw) E.S(s.src).sc.send_raw(refproto::raw_frame(3, E.S(s.src).sc.userid, Bytes())); else E.S(s.src).sc.send_ping(); }
 			sim::W.run_for(25000); pump(X);
 			for (auto &s : X.ss) after += E.S(s.src).sc.received.size() + E.S(s.src).sc.dn_buf.size();
 			quiet = after == before ? quiet + 1 : 0;
@@ -461,6 +498,7 @@ static CaseResult run_case(Tape &t)
 	if (A.n_tun_dead) r.cls("tun-packet-for-dead-address");
 	if (A.n_c2c) r.cls("client-to-client");
 	if (A.n_newlogin) r.cls("third-party-logged-in");
+	if (A.n_raw_sessions) r.cls("raw-mode-session");
 	return r;
 }
 
